@@ -48,3 +48,8 @@ claim("C13",
       "Every scalar of a 42-entry pool in every slot of 26 operator templates, rapid schema-aware documents (well-formed and member-corrupted), byte mutations of real encodings and nesting to 2000 levels are decoded under recover; whenever decoding succeeds and Validate passes, String, %#v, json.Marshal, Render and RenderParam must each return normally. The decoded+validated population (the one that exercises clause 2) is counted separately.",
       "Nothing is asserted about what the operations return. encoding/json is trusted. Nesting beyond 2000 levels would test the Go runtime's stack, not this code.",
       "DESIGN.md section 4, C13")
+claim("C15",
+      "rapid + enumerated trees x render-function maps; tracing fold (call log laid over the tree)",
+      "For generated and hand-built trees and, for every operator, a tracing map / single-operator override / removed / failing function: the call log must be exactly the bottom-up fold of the tree with the supplied functions (one call per node, right operator, children before parents, arguments are the children's results in at most one pair of parentheses, containers in order, root result returned); an override changes output only at that operator's nodes; a missing function yields an error and empty output iff the operator occurs; the stock renderers fail on every query containing ~ or ^.",
+      "The fold checker is harness code (trusted). Values containing the tracer's marker runes are skipped.",
+      "DESIGN.md section 4, C15")
